@@ -1287,6 +1287,8 @@ def trim_cast_varchar(expression: exp.Expression) -> exp.Expression:
         this=exp.Cast(this=operand, to=exp.DataType(this=exp.DataType.Type.VARCHAR, nested=False, prefix=False)),
         # the characters to trim, if any
         expression=expression.args.get("expression"),
+        # LEADING or TRAILING for LTRIM and RTRIM
+        position=expression.args.get("position"),
     )
 
 
